@@ -46,6 +46,8 @@ func (b *BinT) Unmarshal(x []byte) error {
 // RowA: plain scalar columns of every width. Auto-increment primary key.
 type RowA struct {
 	Id    int64 `sql:",primary"`
+	// not a column: struct field positions and column positions differ from here on
+	scratch int
 	Shard int64
 	I8    int8
 	I16   int16
@@ -69,6 +71,8 @@ type RowA struct {
 type RowB struct {
 	Id    int64 `sql:",primary"`
 	Shard int32 `sql:",primary"`
+	// not a column either
+	Scratch *int64 `sql:"-" json:"-"`
 	PI    *int64
 	PI32  *int32
 	PU16  *uint16
@@ -234,6 +238,9 @@ func GenRow(t *rapid.T, table string, id int) interface{} {
 	p := reflect.New(typ)
 	for i := 0; i < typ.NumField(); i++ {
 		sf := typ.Field(i)
+		if sf.PkgPath != "" || sf.Tag.Get("sql") == "-" {
+			continue // not a column
+		}
 		switch sf.Name {
 		case "Id":
 			p.Elem().Field(i).SetInt(int64(id))
